@@ -29,7 +29,7 @@ PROPS = {
         rule='L0 differential per typed decoder: all 256 flag octets x every value length 0..13, boundary lengths up to 4096, all ORIGIN octets, AS_PATH segment grids, grammar-generated and mutated values'),
     'C19': dict(title='Prefix, NLRI, add-path and MP_REACH/MP_UNREACH decoders are exact', l0=True, lean=['CoreBGP.Props.C19'],
         rule='L0 differential: every prefix length octet 0..255 x exact/short/long for IPv4/IPv6 x plain/add-path, every truncation, generated and mutated lists; MP_REACH with every next-hop length octet x straddling attribute lengths, every flags octet'),
-    'C20': dict(title='Peer registry behaves as a consistent map and rejects unusable configs', l0=True, live=True, lean=['CoreBGP.Props.C20', 'CoreBGP.Props.C20Lin', 'CoreBGP.Props.DecTieC20', 'CoreBGP.Props.C20Lock'],
+    'C20': dict(title='Peer registry behaves as a consistent map and rejects unusable configs', l0=True, live=True, lean=['CoreBGP.Props.C20', 'CoreBGP.Props.C20Lin', 'CoreBGP.Props.DecTieC20', 'CoreBGP.Props.C20Lock', 'CoreBGP.Props.C20Life'],
         rule='full configuration grid (router id kind x remote/local address kind x AS {0,1,65535,65536,2^32-1} x hold {0,1,2,3,65535} x port {-1,0,1,179,65535,65536}) through NewServer+AddPeer; seeded sequential registry operation sequences (<=13 ops over 6 keys, with and without Serve/Close) compared step by step with the model and the abstract map; concurrent histories (2-4 goroutines x 1-5 operations over 3 keys, serving or not, global-counter stamps) decided by the proved-sound-and-complete linearizability checker against the model and against the abstract map'),
     'C12': dict(title='Protocol errors damp the peer; Cease and transport faults do not', l0=True, live=True, lean=['CoreBGP.Props.C12', 'CoreBGP.Props.C12L2', 'CoreBGP.Props.C09Tie', 'CoreBGP.Props.DecTieC12'],
         rule='exhaustive error histories up to length 4 (thorough 5) over the gap alphabet {0,1,10,100,299,300,301,1000 s} and random long ones through the real updateStartupDelay; every NOTIFICATION code 0..255 x sent/received x wrapped/bare through the real handleError'),
@@ -37,7 +37,7 @@ PROPS = {
         rule='L0 differential with recover (PANIC is an output like any other) over every decoding entry point: the generators of C02/C08/C15/C16/C18/C19 plus oversize inputs (65535..70000 bytes with extreme length fields)'),
     'C07': dict(title='Connection collision is resolved per RFC 4271 6.8, in every arrival order', live=True, lean=['CoreBGP.Props.C07', 'CoreBGP.Props.DecTieC07'],
         rule='live collision grid: local id <,=,> remote id x AS <,> x which connection completes its OPEN exchange first x Established-before-the-other, plus the forced collision window (manager held before the select while the other FSM requests Established / fails); every trace checked by L1 inclusion and all monitors'),
-    'C10': dict(title='Shutdown from any state is prompt, complete, race-free and leak-free', live=True, lean=['CoreBGP.Props.C10', 'CoreBGP.Props.C10Own', 'CoreBGP.Props.C20Lock'], race_search=['C10', 'C11', 'C07', 'C04'],
+    'C10': dict(title='Shutdown from any state is prompt, complete, race-free and leak-free', live=True, lean=['CoreBGP.Props.C10', 'CoreBGP.Props.C10Own', 'CoreBGP.Props.C20Lock', 'CoreBGP.Props.C20Life'], race_search=['C10', 'C11', 'C07', 'C04'],
         rule='Close / DeletePeer at every point of every connection script (idle, before Serve, OpenSent, OpenConfirm, Established, during collision, damped, with active writers, two peers, the forced dial-completed-while-closing window), both directions'),
     'C09': dict(title='State-dependent message handling follows RFC 4271 8.2.2 / RFC 6608', live=True, lean=['CoreBGP.Props.C09', 'CoreBGP.Props.C09Tie'],
         rule='exhaustive live table: state {OpenSent, OpenConfirm, Established} x stimulus {OPEN, UPDATE, KEEPALIVE, NOTIFICATION Cease/other/hold/undecodable, FIN, RST} x direction {out, in}; each trace must be reproduced by the L1 session model and pass all monitors'),
